@@ -46,21 +46,82 @@ def bad_shape(F):
     return F[0] > min(F)
 
 
-def trie_case(rng, F, nops, stale=False, allids=True):
+import copy as _copy
+
+COPY_OPS = ["cc", "ca", "mv", "ma"]
+
+
+class Slots:
+    """Several objects side by side (copies).  Each has its own tracked state (a dict); a copy op
+       duplicates the current state and continues on the copy, `sw k` continues on object k."""
+    def __init__(self, state):
+        self.all = [state]; self.cur = 0
+
+    @property
+    def st(self):
+        return self.all[self.cur]
+
+    def copy(self, rng, ops, extra=()):
+        ops.append(rng.choice(COPY_OPS + list(extra)))
+        self.all.append(_copy.deepcopy(self.st)); self.cur = len(self.all) - 1
+
+    def switch(self, rng, ops):
+        self.cur = rng.randrange(len(self.all)); ops.append("sw %d" % self.cur)
+
+
+def hot_prefix(rng, F):
+    """'Large index' regime: 40..200 inserts concentrated on one or two cells (so that single id lists
+       hold far more than 32 ids), then a few recent inserts elsewhere.  Returns the keys to insert and
+       queries aimed at the boundary: a value only recent ids have on one factor together with a hot
+       cell's value on another (every id of the long list lies below the candidate)."""
+    n = len(F)
+    def full(): return (list(range(n)), [rng.randrange(F[k]) for k in range(n)])
+    def some():
+        keys = sorted(rng.sample(range(n), rng.randint(1, n)))
+        return (keys, [rng.randrange(F[k]) for k in keys])
+    hot = [rng.choice([full, full, some])() for _ in range(rng.choice([1, 1, 2]))]
+    pre = [rng.choice(hot) if rng.random() < 0.93 else some() for _ in range(rng.choice([40, 48, 70, 120, 200]))]
+    recent = [full() if rng.random() < 0.6 else some() for _ in range(rng.randint(1, 4))]
+    pre += recent
+    targets = []
+    for _ in range(rng.randint(3, 7)):
+        h = rng.choice(hot); r = rng.choice(recent)
+        a, b = rng.sample(range(n), 2)
+        va = dict(zip(*r)).get(a, rng.randrange(F[a])); vb = dict(zip(*h)).get(b, rng.randrange(F[b]))
+        kv = sorted([(a, va), (b, vb)])
+        q = ([k for k, _ in kv], [v for _, v in kv])
+        kind = rng.choice(["p", "p", "f", "r"])
+        if kind == "p": targets.append("p " + PF(q))
+        elif kind == "r": targets.append("r %s %s" % (L(list(range(len(pre)))), PF(q)))
+        else:
+            f = [dict(kv).get(k, rng.randrange(F[k])) for k in range(n)]
+            targets.append("f %s 0" % L(f))
+    return pre, targets
+
+
+def trie_case(rng, F, nops, stale=False, allids=True, copies=False, prefix=(), targets=()):
     """One Trie history.  stale: include erase(id, pf) calls on ids that are not stored (token X).
-       allids: include size / getAllIds calls."""
+       allids: include size / getAllIds calls.  copies: copy/move the object and go on with both.
+       prefix: keys inserted first (large-index regime)."""
     ops = []
-    counter = 0
-    live = {}
-    dead = []
-    weights = {"i": 8, "e": 2, "E": 2, "f": 3, "p": 4, "r": 2, "z": 1 if allids else 0, "a": 0.5 if allids else 0,
-               "A": 0.3 if allids else 0, "X": 1.0 if stale else 0}
+    sl = Slots(dict(counter=0, live={}, dead=[]))
+    for pf in prefix:
+        st = sl.st; ops.append("i " + PF(pf)); st["live"][st["counter"]] = pf; st["counter"] += 1
+    ops += list(targets)
+    weights = {"i": 8 if not prefix else 2, "e": 2, "E": 2, "f": 3, "p": 4, "r": 2, "z": 1 if allids else 0, "a": 0.5 if allids else 0,
+               "A": 0.3 if allids else 0, "X": 1.0 if stale else 0, "copy": 1.2 if copies else 0, "sw": 0}
     kinds = list(weights)
     for _ in range(nops):
+        weights["sw"] = 1.5 if len(sl.all) > 1 else 0
         k = rng.choices(kinds, [weights[x] for x in kinds])[0]
-        if k == "i":
+        st = sl.st; live = st["live"]; dead = st["dead"]; counter = st["counter"]
+        if k == "copy":
+            if len(sl.all) < 5: sl.copy(rng, ops)
+        elif k == "sw":
+            sl.switch(rng, ops)
+        elif k == "i":
             pf = rand_pf(rng, F, allow_empty=rng.random() < 0.3)
-            ops.append("i " + PF(pf)); live[counter] = pf; counter += 1
+            ops.append("i " + PF(pf)); live[counter] = pf; st["counter"] += 1
         elif k == "e":
             if live and rng.random() < 0.7:
                 i = rng.choice(sorted(live)); dead.append((i, live.pop(i)))
@@ -75,6 +136,7 @@ def trie_case(rng, F, nops, stale=False, allids=True):
         elif k == "X":
             if dead and rng.random() < 0.8:
                 i, pf = rng.choice(dead)
+                if i in live: continue          # (re-inserted ids do not exist: ids are never reused)
             else:
                 i, pf = counter + rng.randrange(3), rand_pf(rng, F)
             ops.append("X %d %s" % (i, PF(pf)))
@@ -87,7 +149,10 @@ def trie_case(rng, F, nops, stale=False, allids=True):
         elif k == "p":
             ops.append("p " + PF(rand_pf(rng, F, allow_empty=False)))
         elif k == "r":
-            ids = sorted(rng.sample(range(counter + 1), rng.randint(0, counter + 1)))
+            if counter > 60:
+                ids = sorted(rng.sample(range(counter + 1), rng.randint(0, min(counter + 1, 60))))
+            else:
+                ids = sorted(rng.sample(range(counter + 1), rng.randint(0, counter + 1)))
             pf = rand_pf(rng, F, allow_empty=rng.random() < 0.15)
             ops.append("r %s %s" % (L(ids), PF(pf)))
         else:
@@ -95,22 +160,25 @@ def trie_case(rng, F, nops, stale=False, allids=True):
     return "trie %s ops %s" % (L(F), " ".join(ops))
 
 
-def ftrie_case(rng, F, nops, recon=True):
+def ftrie_case(rng, F, nops, recon=True, copies=False):
     """One FasterTrie history (keys non-empty; queries are prefixes of the factor space)."""
     ops = []
-    counter = 0
-    live = {}
-    dead = []
-    weights = {"i": 8, "E": 3, "X": 0.7, "F": 6, "z": 1, "R": 1.5 if recon else 0}
+    sl = Slots(dict(counter=0, live={}, dead=[], vouch=True))
+    weights = {"i": 8, "E": 3, "X": 0.7, "F": 6, "z": 1, "R": 1.5 if recon else 0, "copy": 1.5 if copies else 0, "sw": 0}
     kinds = list(weights)
-    removed_unknown = False
     for _ in range(nops):
+        weights["sw"] = 1.5 if len(sl.all) > 1 else 0
         k = rng.choices(kinds, [weights[x] for x in kinds])[0]
-        if k == "i":
+        st = sl.st; live = st["live"]; dead = st["dead"]; counter = st["counter"]
+        if k == "copy":
+            if len(sl.all) < 5: sl.copy(rng, ops)
+        elif k == "sw":
+            sl.switch(rng, ops)
+        elif k == "i":
             pf = rand_pf(rng, F, allow_empty=False)
-            ops.append("i " + PF(pf)); live[counter] = pf; counter += 1
+            ops.append("i " + PF(pf)); live[counter] = pf; st["counter"] += 1
         elif k == "E":
-            if not live: continue
+            if not live or not st["vouch"]: continue
             i = rng.choice(sorted(live)); pf = live.pop(i); dead.append((i, pf))
             ops.append("E %d %s" % (i, PF(pf)))
         elif k == "X":
@@ -124,23 +192,26 @@ def ftrie_case(rng, F, nops, recon=True):
             remove = 1 if rng.random() < 0.3 else 0
             ops.append("R %s %d" % (PF(rand_pf(rng, F, dense=rng.choice([0.0, 0.3, 0.6]))), remove))
             if remove:
-                # which entries go is decided by the implementation's shuffles: stop issuing E for
-                # ids we can no longer vouch for (X stays valid: erase of a non-stored id is a no-op,
-                # and for a stored id we pass the right key)
-                dead += list(live.items()); live = {}
-                weights["E"] = 0
+                # which entries go is decided by the implementation's shuffles: stop issuing E on this
+                # object for ids we can no longer vouch for (X stays valid: erase of a non-stored id is a
+                # no-op, and for a stored id we pass the right key)
+                st["dead"] = dead + list(live.items()); st["live"] = {}; st["vouch"] = False
         else:
             ops.append("z")
     return "ftrie %s ops %s" % (L(F), " ".join(ops))
 
 
-def fmap_case(rng, F, nops, kind):
-    ops = []
-    # every shape: getTrie().size() goes through Trie::size() (repaired in /repo, 817ad81)
-    wz = 1
+def fmap_case(rng, F, nops, kind, copies=False, prefix=(), targets=()):
+    ops = ["i " + PF(pf) for pf in prefix] + [t for t in targets if not t.startswith("r ")]
+    nobj = 1
     for _ in range(nops):
-        k = rng.choices(["i", "F", "f", "p", "z"], [6, 3, 4 if kind == "fmT" else 0, 3 if kind == "fmT" else 0, wz])[0]
+        k = rng.choices(["i", "F", "f", "p", "z", "copy", "sw"],
+                        [6 if not prefix else 1, 3, 4 if kind == "fmT" else 0, 3 if kind == "fmT" else 0, 1,
+                         1.2 if copies else 0, 1.5 if nobj > 1 else 0])[0]
         if k == "i": ops.append("i " + PF(rand_pf(rng, F, allow_empty=False)))
+        elif k == "copy":
+            if nobj < 5: ops.append(rng.choice(COPY_OPS + ["gt"])); nobj += 1
+        elif k == "sw": ops.append("sw %d" % rng.randrange(nobj))
         elif k == "F":
             ln = len(F) if kind == "fmT" or rng.random() < 0.6 else rng.randint(0, len(F))
             ops.append("F " + L([rng.randrange(F[j]) for j in range(ln)]))
@@ -171,16 +242,26 @@ def gen(rng, tier):
         # (both defects these calls used to hit are fixed in /repo: 817ad81, 954bcff)
         stale = rng.random() < 0.3
         allids = True
-        out.append(trie_case(rng, F, nops, stale=stale, allids=allids))
+        out.append(trie_case(rng, F, nops, stale=stale, allids=allids, copies=rng.random() < 0.35))
     nf = {"quick": 140, "thorough": len(ALL_SHAPES), "search": 200}[tier]
     fshapes = list(ALL_SHAPES) if tier == "thorough" else [rng.choice(ALL_SHAPES) for _ in range(nf)]
     for F in fshapes:
         F = list(F)
-        out.append(ftrie_case(rng, F, rng.choice([6, 15, 30, maxops])))
+        out.append(ftrie_case(rng, F, rng.choice([6, 15, 30, maxops]), copies=rng.random() < 0.5))
     for _ in range({"quick": 80, "thorough": 400, "search": 120}[tier]):
         F = list(rng.choice(ALL_SHAPES))
         kind = rng.choice(["fmT", "fmF"])
-        out.append(fmap_case(rng, F, rng.choice([8, 20, 40]), kind))
+        out.append(fmap_case(rng, F, rng.choice([8, 20, 40]), kind, copies=rng.random() < 0.5))
+    # large-index regime: id lists with 40..200 ids, queried together with keys that only recent ids have
+    small = [sh for sh in ALL_SHAPES if len(sh) <= 3 and max(sh) <= 3 and min(sh) >= 2]
+    for _ in range({"quick": 20, "thorough": 80, "search": 30}[tier]):
+        F = list(rng.choice(small))
+        pre, targets = hot_prefix(rng, F)
+        out.append(trie_case(rng, F, rng.choice([10, 25]), stale=False, allids=True, copies=rng.random() < 0.2, prefix=pre, targets=targets))
+    for _ in range({"quick": 5, "thorough": 20, "search": 8}[tier]):
+        F = list(rng.choice(small))
+        pre, targets = hot_prefix(rng, F)
+        out.append(fmap_case(rng, F, rng.choice([8, 16]), "fmT", prefix=pre, targets=targets))
     # the constructor rejects fewer than two factors
     out.append("trie 1 3 ops")
     out.append("trie 0 ops")
